@@ -50,10 +50,6 @@ EXPLANATION = ("Theorems C15_* state, for every alphabet / pattern / parameter, 
                "promised; this run ties the model to the code by differential execution and evaluates the "
                "property on the real objects with an independent brute-force oracle.")
 
-K_SUFFIX_EMPTY = "C15:from_suffix:empty-pattern"
-K_SUBSTRINGS_EMPTY = "C15:from_substrings:empty-pattern-suffix-mode"
-K_SUBSTRINGS_FOREIGN = "C15:from_substrings:pattern-symbol-outside-alphabet"
-
 MINIMAL_PROMISED = {"from_prefix", "from_suffix", "from_substring", "from_subsequence", "of_length",
                     "universal_language", "empty_language", "nth_from_start", "nth_from_end",
                     "from_finite_language"}
@@ -432,12 +428,8 @@ def evaluate_property(ctx: Ctx, case: dict, res, bound: int) -> List[Tuple[str, 
         name, is_lib = res[1], res[2]
         if exp_err is not None and (name == exp_err or (exp_err == "LIB" and is_lib)):
             return fails
-        key = None
-        if (c == "from_suffix" or (c == "from_substring" and case["must_be_suffix"])) \
-                and case["pattern"] == "" and name == "IndexError":
-            key = K_SUFFIX_EMPTY
         fails.append((f"{c} raises {name} on an input of its domain"
-                      + (f" (announced: {exp_err})" if exp_err else ""), key))
+                      + (f" (announced: {exp_err})" if exp_err else ""), None))
         return fails
     d: DFA = res[1]
     if exp_err in ("ValueError",):
@@ -477,13 +469,7 @@ def evaluate_property(ctx: Ctx, case: dict, res, bound: int) -> List[Tuple[str, 
     ctx.stat("oracle_words", n_words)
     if bad is not None:
         w, got, want = bad
-        key = None
-        if c == "from_substrings":
-            if "" in case["patterns"] and case["must_be_suffix"]:
-                key = K_SUBSTRINGS_EMPTY
-            elif any(not set(p) <= sys_set for p in case["patterns"]) and not case["must_be_suffix"]:
-                key = K_SUBSTRINGS_FOREIGN
-        fails.append((f"{c}: accepts_input({w!r}) = {got}, the predicate says {want}", key))
+        fails.append((f"{c}: accepts_input({w!r}) = {got}, the predicate says {want}", None))
     # (3) minimality where promised
     if c in MINIMAL_PROMISED and bad is None:
         size, best = len(d.states), nerode_size(d)
@@ -615,12 +601,12 @@ def record_shape(ctx: Ctx, case: dict) -> None:
 
 # ------------------------------------------------------------------ generators
 CORPUS: List[dict] = [
-    # F10 (open): empty suffix, empty pattern in a suffix-mode set
+    # F10 (fixed c9be6ce, e7fb1d6): empty suffix, empty pattern in a suffix-mode set
     dict(ctor="from_suffix", syms="ab", pattern="", contains=True),
     dict(ctor="from_substring", syms="abc", pattern="", contains=False, must_be_suffix=True),
     dict(ctor="from_substrings", syms="abc", patterns=["", "cab"], ordered=True, contains=False, must_be_suffix=True),
     dict(ctor="from_substrings", syms="ab", patterns=[""], ordered=True, contains=True, must_be_suffix=True),
-    # end_state collision (pattern with a symbol outside the alphabet)
+    # F20 (fixed e721303): end_state collision (pattern with a symbol outside the alphabet)
     dict(ctor="from_substrings", syms="ab", patterns=["cc", "ab"], ordered=True, contains=True, must_be_suffix=False),
     dict(ctor="from_substrings", syms="ab", patterns=["bbc", "aac"], ordered=True, contains=True, must_be_suffix=False),
     # F15 (outside the minimality claim): degenerate of_length parameters
